@@ -207,6 +207,11 @@ func (w *world) checkCrashImage(seq *Seq, k, opIdx int, img db.KeyValueStore) {
 		c.Violation("model-mismatch:crash-image", what+"decoded image differs from the model's\n   impl : "+enc+"\n   model: "+mp[0], cs, true)
 		return
 	}
+	if mflags[3] != "1" {
+		// the generator respects the environmental clauses of ops_ok, so this can only be the mem_sync clause:
+		// a revert of a window's last block with the in-memory filter not in sync (e.g. after a restart)
+		c.Violation("hypothesis:ops-ok-false", what+"the model's ops_ok (hypothesis of C05_crash) is false for this generated history", cs, true)
+	}
 	if (mflags[1] == "1") != (nsErr == nil) {
 		c.Violation("model-mismatch:recover-ready", what+fmt.Sprintf("model recover_ready=%s, next store error=%v", mflags[1], nsErr), cs, true)
 	}
